@@ -606,12 +606,69 @@ fn unprivileged_dgram(rc: &RCfg, id: &Ident, size: u16, tos: u8, ttl: u8, kernel
     Some(v)
 }
 
+
+/// the datagram the REAL privileged dispatch puts on the wire for this probe (IPv6: the kernel adds the IP header)
+fn real_dgram(rc: &RCfg, id: &Ident, size: u16, tos: u8, ttl: u8, flow: u32) -> Option<Vec<u8>> {
+    let r = catch_unwind(AssertUnwindSafe(|| {
+        sim::reset();
+        let mut ch = Channel::<SimSocket>::connect(&rc.channel_config(size, tos, id.initseq)).ok()?;
+        ch.send_probe(Probe {
+            sequence: Sequence(id.seq), identifier: TraceId(id.tid), src_port: Port(id.sp), dest_port: Port(id.dp), ttl: TimeToLive(ttl),
+            round: RoundId(0), sent: std::time::SystemTime::UNIX_EPOCH, flags: Flags::from_bits_truncate(u32::from(id.flags)),
+        }).ok()?;
+        sim::with(|w| w.ops.iter().rev().find_map(|o| if let Op::SendTo(_, b, _) = o { Some(b.clone()) } else { None }))
+    }));
+    let b = r.ok()??;
+    if rc.v6() {
+        let nh = if rc.proto == Protocol::Icmp { 58 } else { 17 };
+        let mut v = ip6_hdr(0, flow, b.len() as u16, nh, ttl, &addr_bytes(rc.src), &addr_bytes(rc.dst));
+        v.extend(b);
+        Some(v)
+    } else {
+        Some(b)
+    }
+}
+
+
+/// an outcome of the receive socket other than a datagram: select error, read error, spurious wake-up, timeout
+fn sockerr_case(rc: &RCfg, what: &str, out: &mut Out) {
+    let input = format!("sockerr {} {what}", rc.render());
+    let (obs, _) = observe(catch_unwind(AssertUnwindSafe(|| {
+        sim::reset();
+        let mut ch = Channel::<SimSocket>::connect(&rc.channel_config(84, 0, 33434))?;
+        sim::with(|w| match what {
+            "select" => w.inject.push((sim::Call::Select, 0, std::io::ErrorKind::PermissionDenied)),
+            "read" => {
+                w.readyq.push_back((vec![0u8; 64], None));
+                w.inject.push((sim::Call::Read, 0, std::io::ErrorKind::PermissionDenied));
+            }
+            "wouldblock" => {
+                w.readyq.push_back((vec![0u8; 64], None));
+                w.inject.push((sim::Call::Read, 0, std::io::ErrorKind::WouldBlock));
+            }
+            _ => {}
+        });
+        ch.recv_probe()
+    })));
+    let mut fails = vec![];
+    if obs == "fault:panic" { fails.push("C04:panic:receive_socket_outcome".to_string()); }
+    // C09: a fatal error of the receive socket must come back as an error value (it ends the run), never be swallowed
+    if (what == "select" || what == "read") && !obs.starts_with("err:") {
+        fails.push(format!("C09:fatal_receive_socket_error_swallowed:{what}"));
+    }
+    if (what == "wouldblock" || what == "timeout") && obs != "none" {
+        fails.push(format!("C09:receive_timeout_not_reported_as_no_response:{what}"));
+    }
+    out.case(&input, &obs, &if fails.is_empty() { "ok".to_string() } else { format!("FAIL:{}", fails.join(";")) });
+}
+
 pub fn run(args: &Args, out: &mut Out) {
     if let Some(path) = &args.replay {
         for l in crate::replay_inputs(path) {
             let t: Vec<&str> = l.split(' ').collect();
             match t[0] {
                 "recv" => recv_case(&RCfg::parse(t[1]), if t[2] == "-" { None } else { Some(addr_from(&unhex(t[2]))) }, &unhex(t[3]), t.get(4).copied().unwrap_or("-"), out),
+                "sockerr" => sockerr_case(&RCfg::parse(t[1]), t[2], out),
                 "tcpsock" => tcp_case(&RCfg::parse(t[1]), &parse_outcome(t[2]), t[3].parse().unwrap(), t[4].parse().unwrap(), t.get(5).copied().unwrap_or("-"), out),
                 "probe" => probe_case(&RCfg::parse(t[1]), t[2].parse().unwrap(), t[3].parse().unwrap(), t[4].parse().unwrap(), t[5].parse().unwrap(), t[6].parse().unwrap(),
                     t[7].parse().unwrap(), t[8].parse().unwrap(), t[9].parse().unwrap(), t[10].parse().unwrap(), out),
@@ -761,6 +818,41 @@ pub fn run(args: &Args, out: &mut Out) {
         out.stat("unprivileged_udp_roundtrips", &n.to_string());
     }
 
+    // ---- (i-d) the loop closed on the bytes the REAL dispatch emits (privileged ICMP / UDP cells): dispatch -> router quotes -> receive
+    {
+        let mut n = 0usize;
+        for c in all.iter().filter(|c| c.proto != Protocol::Tcp) {
+            let dublin6 = c.v6 && c.proto == Protocol::Udp && c.strat == MultipathStrategy::Dublin;
+            let offs: Vec<u16> = if thorough { (0..=764).collect() } else { vec![0, 1, 2, 255, 256, 257, 510, 511, 512, 513, 600, 700, 763, 764] };
+            for &off in &offs {
+                let mut rc = rand_rcfg(&mut rng, c);
+                rc.privileged = true;
+                let tid = 1 + rng.below(65535) as u16;
+                let initseq = *rng.pick(&[33434u16, 1, 64000]);
+                let seq = initseq + off;
+                let id = ident(c, tid, initseq, seq);
+                let iph = if c.v6 { 40 } else { 20 };
+                let size = *rng.pick(&[iph + 8, iph + 9, 84, 200]) as u16;
+                let Some(d) = real_dgram(&rc, &id, size, *rng.pick(&[0u8, 0x10]), *rng.pick(&[1u8, 2, 30]), rng.below(1 << 20) as u32) else { continue };
+                let peer = rand_peer(&mut rng, c, &rc, d.len());
+                let (b, _) = quote(c.v6, &addr_bytes(rc.src), &peer, &d);
+                let from = if c.v6 { Some(addr_from(&peer.router)) } else { None };
+                recv_case(&rc, from, &b, &format!("own={}={}", strat_cfg(c, &rc, tid, initseq).render(), seq), out);
+                n += 1;
+                let _ = dublin6;
+            }
+        }
+        out.stat("real_dispatch_roundtrips", &n.to_string());
+    }
+
+    // ---- receive socket outcomes other than a datagram, every cell: select error, read error, spurious wake-up, timeout
+    for c in &all {
+        for what in ["select", "read", "wouldblock", "timeout"] {
+            let rc = rand_rcfg(&mut rng, c);
+            sockerr_case(&rc, what, out);
+        }
+    }
+
     // ---- (ii) fully random bytes (random lengths, plus ICMP-looking prefixes)
     let nrand = if thorough { 200_000 } else { 12_000 };
     for i in 0..nrand {
@@ -849,7 +941,7 @@ pub fn run(args: &Args, out: &mut Out) {
         for _ in 0..(if thorough { 100 } else { 10 }) {
             let rc = rand_rcfg(&mut rng, c);
             let initseq = *rng.pick(&[33434u16, 0, 64000]);
-            let seq = initseq + rng.below(400) as u16;
+            let seq = initseq + *rng.pick(&[0u16, 1, 255, 256, 511, 512, 513, 700, 764]) .max(&(rng.below(765) as u16));
             let id = ident(c, 1 + rng.below(65535) as u16, initseq, seq);
             let iph = if c.v6 { 40 } else { 20 };
             let size = *rng.pick(&[iph + 8, iph + 9, 84, 1024]);
